@@ -111,7 +111,14 @@ func checkTamper(c tamperCase, r *h.Rec) error {
 	al := &alloc{guard: c.Guard}
 	defer al.free()
 	try := func(what string, n2, a2, c2 []byte) error {
-		return openMustFail(a, c, al, what, n2, a2, c2, pt, desc)
+		if err := openMustFail(a, c, al, what, n2, a2, c2, pt, desc); err != nil {
+			return err
+		}
+		// a rejection leaves the AEAD usable: the genuine message still opens
+		if out, err := a.Open(nil, nonce, sealed, aad); err != nil || !bytes.Equal(out, pt) {
+			return fmt.Errorf("after rejecting a forged message (%s) Open no longer accepts the genuine one (err=%v) [%s]", what, err, desc)
+		}
+		return nil
 	}
 	switch c.Region {
 	case regCutEnd:
@@ -370,8 +377,8 @@ func TestC04_TamperRandom(t *testing.T) {
 			if b.AadLen > 8192 {
 				b.AadLen %= 8192
 			}
-			if b.PtLen > 4096 {
-				b.PtLen %= 4096
+			if b.PtLen > 16384 {
+				b.PtLen %= 16384
 			}
 		} else {
 			b = genGCMCase(rt)
@@ -542,4 +549,40 @@ func TestC04_Misuse(t *testing.T) {
 		emit(misuseCase{Kind: kCCM, What: "ccm-too-long", TagLen: 16, Seed: seed()})
 		emit(misuseCase{Kind: kCCMWrapped, What: "ccm-too-long", TagLen: 4, Seed: seed()})
 	}, checkMisuse)
+}
+
+// ---------------------------------------------------------------- regression: defects this check found
+
+// TestC04_Regress pins, independently of the seed-dependent layout rotation
+// of the sweeps, the two defects found with this check and since fixed in
+// /repo: (1) the fused GCM touched up to 16-tag-r bytes past its slices for
+// tags shorter than 16 bytes and a trailing partial block of r bytes with
+// r+tag < 16 (Seal wrote, Open read); (2) CCM Seal in place computed the tag
+// over the ciphertext.
+func TestC04_Regress(t *testing.T) {
+	h.Sweep(t, h.P{Name: "regress", Journal: journalAll}, func(emit func(aeadCase)) {
+		i := uint64(0)
+		for _, tl := range []int{12, 13, 14, 15} {
+			for _, pt := range []int{1, 2, 3, 4, 17, 18, 19, 129, 130, 131, 257} {
+				for _, lay := range [][4]int{ // seal layout, open layout, spare, guard
+					{layPrefix, layNil, 4, 0}, {layPrefix, layPrefix, 0, 1}, {layInPlace, layInPlace, 0, 1}, {layInPlace, layNil, 5, 0}, {layNil, layShort, 0, 1},
+				} {
+					for _, kind := range []int{kGCM, kGCMWrapped} {
+						i++
+						emit(aeadCase{Kind: kind, NonceLen: 12, TagLen: tl, PtLen: pt, AadLen: int(i % 3), Seed: gen.Mix(h.Seed, i, 9),
+							SealLay: lay[0], OpenLay: lay[1], Prefix: int(i % 2 * 7), Spare: lay[2], Guard: lay[3]})
+					}
+				}
+			}
+		}
+		for _, kind := range []int{kCCM, kCCMWrapped} {
+			for _, pt := range []int{1, 15, 16, 17, 33, 300} {
+				for _, prefix := range []int{0, 5} {
+					i++
+					emit(aeadCase{Kind: kind, NonceLen: 7 + int(i%7), TagLen: 4 + 2*int(i%7), PtLen: pt, AadLen: int(i % 4 * 7), Seed: gen.Mix(h.Seed, i, 9),
+						SealLay: layInPlace, OpenLay: layInPlace, Prefix: prefix, Spare: int(i % 2 * 3), Guard: int(i % 3)})
+				}
+			}
+		}
+	}, checkAEAD)
 }
